@@ -276,7 +276,22 @@ def run(ck):
                  cells_too_small=0, skipped_irrational=0, dictionaries=0)
     skipped = {"nonpercolating": 0, "construct-failed": 0, "too-many-states": 0}
     jobs = []
-    ncalc = ck.n(4, 18)
+    ncalc = ck.n(3, 18)
+    # a fixed symmetry-breaking case first (bcc tetrahedral network in a sheared cell), then the generated ones
+    fixed = [("interstitial", "bcc-tet", np.array([[2, 1, 0], [0, 1, 0], [0, 0, 1]]))]
+    for kind, name, super_n in fixed:
+        crys, chem = gen.named(name)
+        crys = crystal.Crystal(crys.lattice, crys.basis, chemistry=[str(x) for x in crys.chemistry])
+        sl = crys.sitelist(chem)
+        jn = crys.jumpnetwork(chem, gen.shells(crys, chem)[0] + 1e-4)
+        d = OnsagerCalc.Interstitial(crys, chem, sl, jn)
+        spec = dict(label=name, lattice=crys.lattice.tolist(), basis=[[u.tolist() for u in b] for b in crys.basis], chem=chem,
+                    cutoff=gen.shells(crys, chem)[0] + 1e-4, supercell=super_n.tolist())
+        with warnings.catch_warnings(record=True) as warns:
+            warnings.simplefilter("always")
+            sd = d.makesupercells(super_n)
+        stats["dictionaries"] += 1
+        jobs.append(check_superdict(ck, col, kind, name, d, crys, chem, super_n, sd, list(warns), spec, stats))
     for kind in ("interstitial", "vacancy"):
         made = 0
         names = ["hcp-oct-tet", "fcc-oct-tet", "bcc-tet", "sc", "b2-1", "polar2w", "diamond"] if kind == "interstitial" else \
